@@ -5,6 +5,11 @@
 D=$(cd "$(dirname "$0")" && pwd)
 . "$D/env.sh"
 ID="$1"; TIER="${2:-${VERIF_TIER:-quick}}"
+# tools/seedcheck.sh holds /tmp/.verif-repo-busy while a seeded change is applied to /repo; a
+# background run started meanwhile (VERIF_WAIT_REPO=1) waits instead of building the mutated tree.
+if [ -n "${VERIF_WAIT_REPO:-}" ]; then
+  while [ -e /tmp/.verif-repo-busy ]; do sleep 2; done
+fi
 if ! "$D/build.sh" all >"$D/.build.log" 2>&1; then
   echo "BROKEN-CHECK property=$ID harness does not build against the current /repo tree:"
   tail -n 30 "$D/.build.log"
